@@ -582,20 +582,24 @@ func (w *World) RunGopki(op *Op) *RunResult {
 }
 
 // gopkiFrame extracts the innermost gopki function from a panic stack.
-var frameRx = regexp.MustCompile(`(?m)^(github\.com/wokdav/gopki[^\s(]*)\(`)
-
 func gopkiFrame(stack string) string {
-	m := frameRx.FindStringSubmatch(stack)
-	if m == nil {
-		return "unknown"
+	for _, l := range strings.Split(stack, "\n") {
+		if strings.HasPrefix(l, "github.com/wokdav/gopki") {
+			if i := strings.LastIndex(l, "("); i > 0 {
+				l = l[:i]
+			}
+			return strings.TrimPrefix(l, "github.com/wokdav/gopki/")
+		}
 	}
-	return strings.TrimPrefix(m[1], "github.com/wokdav/gopki/")
+	return "unknown"
 }
 
 var digitsRx = regexp.MustCompile(`[0-9]+`)
+var dottedRx = regexp.MustCompile(`N(\.N)+`)
 
 func panicClass(msg string) string {
 	m := digitsRx.ReplaceAllString(msg, "N")
+	m = dottedRx.ReplaceAllString(m, "N.N")
 	if len(m) > 80 {
 		m = m[:80]
 	}
